@@ -281,4 +281,14 @@ func init() {
 	})
 }
 
+func init() {
+	replayDrivers = append(replayDrivers, replayDriver{
+		match: func(n string) bool { return strings.Contains(n, "updateAuthCookieAuthlevel#C05.own-session") },
+		run: func(r *Report, o *Obligation, sr *SolveResult) ReplayResult {
+			out, conf := goReplay(r, "cmd/keymasterd", "keymasterd_replay_test.go", "TestVerifReplayUpgradeOtherUsersCookie", map[string]string{})
+			return ReplayResult{Confirmed: conf, Summary: replaySummary(out), Output: truncate(out, 4000), Driver: "TestVerifReplayUpgradeOtherUsersCookie (scenario of the model: cookie subject != user established by checkAuth)"}
+		},
+	})
+}
+
 var intRe = regexp.MustCompile(`\(?-?[0-9]+\)?`)
